@@ -58,13 +58,13 @@ def main():
             na.append(dict(property_id=pid, reason="check under construction in this commit; not claimed yet"))
     na.sort(key=lambda x: x["property_id"])
     m = dict(version=1,
-        setup_cmd="cd sim && CARGO_NET_OFFLINE=true cargo build --release --offline && cd ../miri && (cargo +nightly miri setup >/dev/null 2>&1; MIRIFLAGS=-Zmiri-tree-borrows cargo +nightly miri run --offline -- c17 1 >/dev/null 2>&1; true)",
+        setup_cmd="cd sim && CARGO_NET_OFFLINE=true cargo build --release --offline && CARGO_NET_OFFLINE=true cargo build --profile stackdbg --offline && cd ../miri && (cargo +nightly miri setup >/dev/null 2>&1; MIRIFLAGS=-Zmiri-tree-borrows cargo +nightly miri run --offline -- c17 1 >/dev/null 2>&1; true)",
         hooks=dict(guard="cargo feature verif-hooks (crate geo-booleanop)", enable="sim/Cargo.toml depends on geo-booleanop = { path = \"/repo/lib\", features = [\"verif-hooks\"] }",
             baseline_off_cmd="cd /repo && cargo test --workspace --no-fail-fast --offline", source_commits=HOOK_COMMITS, add_only=True),
         engines=[dict(name="sim", path="sim", serves_properties=sorted(CHECKS), kind_free_text="Rust binary: seeded simulator (worlds, simulated heap, getrandom interposition, baton scheduler, child-process stack simulation), rebuilt against /repo by every check"),
                  dict(name="miri", path="miri", serves_properties=["C12", "C17"], kind_free_text="scenario crate run under cargo +nightly miri (Tree Borrows, many seeds) by the sim parent process: second deterministic simulator for instruction-level preemption, data races and reference validity")],
         checks=checks, not_applicable=na,
-        notes="Technique family: deterministic simulation with fault injection. 14 properties are pure functions of their input and are listed not_applicable with reasons (DESIGN.md sections 0 and 7).")
+        notes="Unguarded repair of a genuine defect in /repo: 3642904 (fix: iterative splay teardown, KF-1 in known_findings.json). Technique family: deterministic simulation with fault injection. 14 properties are pure functions of their input and are listed not_applicable with reasons (DESIGN.md sections 0 and 7).")
     json.dump(m, open("MANIFEST.json", "w"), indent=1)
     try:
         import jsonschema
